@@ -12,6 +12,7 @@ class RequestStreamRequester(StreamHandler, DefaultPublisherSubscription, Reques
     def __init__(self, socket: RSocket, payload: Payload):
         super().__init__(socket)
         self.payload = payload
+        self._subscriber = None
 
     def setup(self):
         pass
@@ -41,7 +42,8 @@ class RequestStreamRequester(StreamHandler, DefaultPublisherSubscription, Reques
             if frame.flags_complete:
                 self._finish_stream()
         elif isinstance(frame, ErrorFrame):
-            self._subscriber.on_error(error_frame_to_exception(frame))
+            if self._subscriber is not None:
+                self._subscriber.on_error(error_frame_to_exception(frame))
             self._finish_stream()
 
     def _send_stream_request(self, payload: Payload):
